@@ -602,6 +602,8 @@ pub fn run_c10(ctx: &mut Ctx) {
             ("own-table-by-value", "pub type A { vftable { pub fn f(&self); pub fn g(&self); }, pub v: AVftable, }"),
             ("own-table-behind-pointer", "pub type A { vftable { pub fn f(&self, t: *const AVftable); }, pub v: *const AVftable, }"),
             ("table-of-base-by-name", "pub type B { vftable { pub fn f(&self); }, }\npub type D { #[base] pub base: B, pub t: *const BVftable, }\npub type U { pub d: D, pub t: [*const BVftable; 2], }"),
+            ("table-of-a-waiting-type-by-value", "pub type A { pub v: BVftable, }\npub type B { vftable { pub fn h(&self); }, pub a: A, }"),
+            ("tables-by-value-in-a-chain", "pub type A { pub v: [BVftable; 2], }\npub type B { vftable { pub fn h(&self); pub fn i(&self); }, pub c: C, }\npub type C { pub t: AVftable2, }\npub type AVftable2 { pub z: *const u8, }"),
             ("extern-value-of-table-pointer", "pub type B { vftable { pub fn f(&self); }, }\n#[address(0x7000)] pub extern g_table: *const BVftable;"),
         ];
         let mut built = 0u64;
@@ -746,6 +748,13 @@ pub fn bind_mods(c: &BindCase) -> Mods {
                 format!("kb_nowhere::{name}")
             } else {
                 "kb_p0::Missing".to_string()
+            }
+        } else if *p == 4 {
+            // the consumer imports itself: its own definition by name, or its own path
+            if *is_type {
+                format!("{}::{name}", consumer_path(c.consumer))
+            } else {
+                consumer_path(c.consumer).to_string()
             }
         } else if *is_type {
             format!("{}::{name}", provider_path(*p))
@@ -918,6 +927,19 @@ pub fn run_c11(ctx: &mut Ctx) {
                                     consumer,
                                     ptrw,
                                 });
+                                if local && uses.len() <= 2 {
+                                    // the module also imports its own definition by name, before
+                                    // or after the other imports
+                                    for at_end in [false, true] {
+                                        let mut u = uses.clone();
+                                        if at_end {
+                                            u.push((4, true));
+                                        } else {
+                                            u.insert(0, (4, true));
+                                        }
+                                        cases.push(BindCase { uses: u, local, builtin_name, consumer, ptrw });
+                                    }
+                                }
                             }
                         }
                     }
@@ -935,7 +957,7 @@ pub fn run_c11(ctx: &mut Ctx) {
     let mut rng = Rng::derive(ctx.seed, 0x1100);
     for _ in 0..ctx.tier.pick(2000, 40_000) {
         let n = rng.range(0, 7);
-        let uses = (0..n).map(|_| (rng.below(4), rng.coin())).collect();
+        let uses = (0..n).map(|_| (rng.below(5), rng.coin())).collect();
         selected.push(BindCase {
             uses,
             local: rng.coin(),
@@ -943,6 +965,87 @@ pub fn run_c11(ctx: &mut Ctx) {
             consumer: rng.below(3),
             ptrw: *rng.pick(&[4, 8]),
         });
+    }
+    // names of GENERATED vftable structs take part in the same rules: imported by name they win,
+    // the module's own generated struct comes before those of imported modules, and the binding
+    // must not depend on whether the struct has been generated yet when the name is looked up
+    {
+        let providers: Vec<(&str, &str)> = vec![
+            ("plain-block", "pub type Foo { vftable { pub fn v(&self); }, }"),
+            ("empty-block", "pub type Foo { vftable { }, }"),
+            ("sized-empty-block", "pub type Foo { #[size(2)] vftable { }, }"),
+            ("block-and-base", "pub type FooBase { pub x: *const u8, }\npub type Foo { vftable { pub fn v(&self); }, #[base] pub base: FooBase, }"),
+            ("block-over-base-with-table", "pub type FooBase { vftable { pub fn v(&self); }, }\npub type Foo { vftable { pub fn v(&self); pub fn w(&self); }, #[base] pub base: FooBase, }"),
+        ];
+        let user = "#[align(4)] pub type FooVftable { pub x: u32, pub y: u32, pub z: u32, }";
+        let mut compared = 0u64;
+        for (pname, provider) in &providers {
+            for ptrw in [4usize, 8] {
+                for schedule in 0..10u64 {
+                    let parse = |t: &str| pyxis::parser::parse_str(t).expect("C11 generated-name case parses");
+                    let mods: Mods = vec![
+                        (ItemPath::from("kn_gen"), parse(provider)),
+                        (ItemPath::from("kn_user"), parse(user)),
+                        // imported by name: wins over the module import
+                        (ItemPath::from("kn_a"), parse("use kn_user;\nuse kn_gen::FooVftable;\npub type X { pub p: *const FooVftable, }")),
+                        // module imports only: the earlier one wins
+                        (ItemPath::from("kn_b"), parse("use kn_gen;\nuse kn_user;\npub type X { pub p: *const FooVftable, }")),
+                        (ItemPath::from("kn_c"), parse("use kn_user;\nuse kn_gen;\npub type X { pub p: *const FooVftable, }")),
+                        // the module's own generated struct comes before imported modules
+                        (ItemPath::from("kn_d"), parse(&format!("use kn_user;\n{provider}\npub type X {{ pub p: *const FooVftable, }}"))),
+                    ];
+                    let mut rng = Rng::derive(ctx.seed, 0x11C0_0000 + schedule);
+                    let scheduler: Option<drive::Scheduler> = match schedule {
+                        0 => None,
+                        1 => Some(Box::new(|mut v: Vec<ItemPath>| {
+                            v.sort_by_key(|p| p.to_string());
+                            v
+                        })),
+                        2 => Some(Box::new(|mut v: Vec<ItemPath>| {
+                            v.sort_by_key(|p| p.to_string());
+                            v.reverse();
+                            v
+                        })),
+                        _ => Some(Box::new(move |mut v: Vec<ItemPath>| {
+                            v.sort_by_key(|p| p.to_string());
+                            for i in (1..v.len()).rev() {
+                                let j = rng.below(i + 1);
+                                v.swap(i, j);
+                            }
+                            v
+                        })),
+                    };
+                    let mut ordered = mods.clone();
+                    if schedule % 2 == 1 {
+                        ordered.reverse();
+                    }
+                    ctx.eval();
+                    let out = drive::build_modules(&ordered, ptrw, Opts { scheduler, ..Default::default() });
+                    ctx.nontrivial(fnv(format!("generated{pname}{ptrw}").as_bytes()));
+                    match out.result {
+                        Err(e) => {
+                            let sig = if e.stage == Stage::Panic { "C11/panic" } else { "C11/rejected-bound-name" };
+                            ctx.violation(sig, &format!("generated-name case {pname}, schedule {schedule}: {}", crate::verdict::one_line(&e.msg, 200)), case_json(&ordered, ptrw));
+                        }
+                        Ok(ok) => {
+                            for (module, want) in [("kn_a", "kn_gen"), ("kn_b", "kn_gen"), ("kn_c", "kn_user"), ("kn_d", "kn_d")] {
+                                compared += 1;
+                                let got = ok.files.get(&format!("{module}.rs")).and_then(|t| emitted::parse(t).ok()).and_then(|ef| ef.struct_("X").and_then(|s| s.fields.iter().find(|f| f.name == "p")).map(|f| f.ty.clone()));
+                                let want_ty = format!("*const crate::{want}::FooVftable");
+                                if got.as_deref() != Some(want_ty.as_str()) {
+                                    ctx.violation(
+                                        "C11/binds-elsewhere/generated-name",
+                                        &format!("{pname}, schedule {schedule}: `FooVftable` in `{module}` must bind to `{want}::FooVftable`, emitted {got:?}"),
+                                        json!({"consumer": module, "name": "FooVftable", "ptrw": ptrw, "modules": case_json(&ordered, ptrw)["modules"]}),
+                                    );
+                                }
+                            }
+                        }
+                    }
+                }
+            }
+        }
+        ctx.count("generated_name_bindings_compared", compared);
     }
     let results: Vec<(BindCase, Vec<(String, String)>)> = selected.into_par_iter().map(|c| { let b = judge_bind(&c); (c, b) }).collect();
     let mut sampled = 0;
